@@ -63,8 +63,9 @@ class FeatureInterval(AbstractFeatureInterval):
         self._location = self.initialize_location(interval_starts, interval_ends, strand, parent_or_seq_chunk_parent)
         self._genomic_starts = interval_starts
         self._genomic_ends = interval_ends
-        self.start = self.genomic_start = interval_starts[0]
-        self.end = self.genomic_end = interval_ends[-1]
+        # the span of the blocks, whatever their order in the lists and also when one block is nested in another
+        self.start = self.genomic_start = min(interval_starts)
+        self.end = self.genomic_end = max(interval_ends)
         self._strand = strand
         self._parent_or_seq_chunk_parent = parent_or_seq_chunk_parent
         self.sequence_guid = sequence_guid
